@@ -90,6 +90,10 @@ def intLiteral (neg : Bool) (digits : List Char) : Option Int :=
   if neg then (if n ≤ I64_MAX + 1 then some (-(n : Int)) else none)
   else (if n ≤ I64_MAX then some (n : Int) else none)
 
+/-- `parse_match_pattern` on an `IntLit` token: `s.parse::<i64>()` (there is no signed literal
+    pattern: a `-` in pattern position is a syntax error) -/
+def intPattern (digits : List Char) : Option Int := intLiteral false digits
+
 -- ---------------------------------------------------------------- strings
 def isPrefix : List Char → List Char → Bool
   | [], _ => true
@@ -378,7 +382,7 @@ def tokenizeAux : Nat → Nat → List Char → List Token × List LexError
 
 /-- shebang: `#!` at the very beginning skips the rest of the first line -/
 def shebangLen : List Char → Nat
-  | '#' :: '!' :: rest => 1 + (('!' :: rest).takeWhile (· ≠ '\n')).length
+  | '#' :: '!' :: rest => 1 + lineCommentLen ('!' :: rest)
   | _ => 0
 
 /-- `tokenize_file`, positions as *character* indices (how the lexer scans): tokens ending in `eof`
